@@ -14,14 +14,23 @@ struct Ctx {
   std::vector<JsonVariant> handles;
   std::deque<std::string> pool;     // storage kept alive for linked strings
   size_t opcount = 0;               // selects among equivalent API entry points
+  size_t curAlias = 0;              // the counter value of the operation being executed
   std::deque<std::vector<char>> pool2;
   int kind = 0;
 };
 
+// kind 7 = mixed: every operation takes its string operands through a kind chosen from the operation counter
+static int effKind(const Ctx& c) { return c.kind == 7 ? int(c.curAlias % 7) : c.kind; }
 // store string s (value) into variant v using the configured source kind; returns set()'s result
 template <class V> static bool setString(Ctx& c, V v, const std::string& s) {
   bool hasNul = s.find('\0') != std::string::npos;
-  switch (hasNul ? 0 : c.kind) {
+  if (c.kind == 7 && !hasNul) {
+    // mixed mode: first store the SAME text through the opposite storage (linked <-> copied), then through the kind
+    // under test: the second call must fully replace the first one's storage
+    if (effKind(c) == 1) { std::string tmp = s; v.set(tmp); }
+    else { c.pool.push_back(s); v.set(c.pool.back().c_str()); }
+  }
+  switch (hasNul ? 0 : effKind(c)) {
     case 1: c.pool.push_back(s); return v.set(c.pool.back().c_str());                  // const char*: linked
     case 2: { std::vector<char> buf(s.begin(), s.end()); buf.push_back(0); bool r = v.set(buf.data());   // char*: copied
               std::fill(buf.begin(), buf.end(), 'Z'); return r; }
@@ -34,7 +43,7 @@ template <class V> static bool setString(Ctx& c, V v, const std::string& s) {
 }
 template <class F> static auto withKey(Ctx& c, const std::string& k, F f) {
   bool hasNul = k.find('\0') != std::string::npos;
-  switch (hasNul ? 0 : c.kind) {
+  switch (hasNul ? 0 : effKind(c)) {
     case 1: c.pool.push_back(k); return f(c.pool.back().c_str());
     case 2: { c.pool2.emplace_back(k.begin(), k.end()); c.pool2.back().push_back(0); std::vector<char> tmp = c.pool2.back();
               auto r = f((char*)tmp.data()); return r; }
@@ -66,7 +75,16 @@ static std::string runOp(Ctx& c, const std::vector<std::string>& a) {
   auto bindRes = [&](const std::string& s, JsonVariant v) { H(s) = v; return std::string(v.isUnbound() ? "unbound" : "bound"); };
   const std::string& op = a[0];
   size_t alias = c.opcount++;   // selects among equivalent API entry points (see rmidx / rmkey / getelem / getmember)
-  if (op == "set") return setScalar(c, H(a[1]), a[2]) ? "true" : "false";
+  c.curAlias = alias;
+  // JsonString::isLinked() reports the storage on purpose: a value set from a const char* is linked, from any other
+  // kind it is a copy; an assignment keeps the source's storage
+  auto linkOk = [&](JsonVariantConst v, const std::string& d) -> bool {
+    if (d[0] != 's' || !v.is<JsonString>()) return true;
+    bool hasNul = unhex(d.substr(1)).find('\0') != std::string::npos;
+    bool wantLinked = !hasNul && effKind(c) == 1;
+    return v.as<JsonString>().isLinked() == wantLinked;
+  };
+  if (op == "set") { bool r = setScalar(c, H(a[1]), a[2]); return r ? (linkOk(H(a[1]), a[2]) ? "true" : "true!LINK") : "false"; }
   if (op == "toarr") { H(a[1]).to<JsonArray>(); return "-"; }
   if (op == "toobj") { H(a[1]).to<JsonObject>(); return "-"; }
   if (op == "clear") { H(a[1]).clear(); return "-"; }
@@ -93,7 +111,11 @@ static std::string runOp(Ctx& c, const std::vector<std::string>& a) {
     return bindRes(a[3], JsonVariant(h[idx]));
   }
   if (op == "makeelem") return bindRes(a[3], H(a[1])[(size_t)std::stoul(a[2])].to<JsonVariant>());
-  if (op == "setelem") return setScalar(c, H(a[1])[(size_t)std::stoul(a[2])], a[3]) ? "true" : "false";   // r[i] = x
+  if (op == "setelem") {   // r[i] = x
+    size_t idx = std::stoul(a[2]);
+    bool r = setScalar(c, H(a[1])[idx], a[3]);
+    return r ? (linkOk(JsonVariantConst(H(a[1]))[idx], a[3]) ? "true" : "true!LINK") : "false";
+  }
   if (op == "getmember") {
     std::string k = unhex(a[2]);
     JsonVariant h = H(a[1]);
@@ -101,8 +123,11 @@ static std::string runOp(Ctx& c, const std::vector<std::string>& a) {
     return bindRes(a[3], withKey(c, k, [&](auto kk) { return JsonVariant(h[kk]); }));
   }
   if (op == "makemember") { std::string k = unhex(a[2]); return bindRes(a[3], withKey(c, k, [&](auto kk) { return H(a[1])[kk].template to<JsonVariant>(); })); }
-  if (op == "setmember") { std::string k = unhex(a[2]);
-    return withKey(c, k, [&](auto kk) { return setScalar(c, H(a[1])[kk], a[3]); }) ? "true" : "false"; }   // r[k] = x
+  if (op == "setmember") {   // r[k] = x
+    std::string k = unhex(a[2]);
+    bool r = withKey(c, k, [&](auto kk) { return setScalar(c, H(a[1])[kk], a[3]); });
+    return r ? (linkOk(JsonVariantConst(H(a[1]))[k], a[3]) ? "true" : "true!LINK") : "false";
+  }
   // the same operation is reached through different entry points of the API (variant, typed reference, iterator),
   // chosen from the operation counter: the tree model does not distinguish them, the results must not either
   if (op == "rmidx") {
@@ -128,7 +153,14 @@ static std::string runOp(Ctx& c, const std::vector<std::string>& a) {
     } else withKey(c, k, [&](auto kk) { h.remove(kk); return 0; });
     return "-";
   }
-  if (op == "assign") return H(a[1]).set(JsonVariantConst(H(a[2]))) ? "true" : "false";
+  if (op == "assign") {
+    JsonVariantConst src = H(a[2]);
+    bool srcStr = src.is<JsonString>(), srcLinked = srcStr && src.as<JsonString>().isLinked();
+    bool r = H(a[1]).set(src);
+    if (r && srcStr && a[1] != a[2] && JsonVariantConst(H(a[1])).is<JsonString>() &&
+        JsonVariantConst(H(a[1])).as<JsonString>().isLinked() != srcLinked) return "true!LINK";
+    return r ? "true" : "false";
+  }
   if (op == "dclear") { c.docs[std::stoul(a[1])]->clear(); return "-"; }
   if (op == "dcopy") { *c.docs[std::stoul(a[1])] = *c.docs[std::stoul(a[2])]; return "-"; }
   if (op == "dswap") { swap(*c.docs[std::stoul(a[1])], *c.docs[std::stoul(a[2])]); return "-"; }
@@ -253,7 +285,7 @@ int main() {
   std::ios::sync_with_stdio(false);
   std::string line;
   while (std::getline(std::cin, line)) {
-    watchdog(300);   // a corrupted structure may make the library loop: report instead of hanging the check
+    watchdog(60);   // a corrupted structure may make the library loop: report instead of hanging the check
     if (line.empty()) continue;
     std::cout << handle(split(line), line) << "\n" << std::flush;
   }
